@@ -1,10 +1,10 @@
 #!/bin/bash
 # Build the Rocq/Coq development from files on disk only (offline). Full .vo build.
-set -e
+set -e -o pipefail
 cd "$(dirname "$0")/coq"
 srcs=$(ls model/*.v proofs/*.v props/*.v | sort)
 { grep -v '\.v$' _CoqProject; for f in model proofs props; do ls $f/*.v | sort; done; } > _CoqProject.new
 mv _CoqProject.new _CoqProject
 coq_makefile -f _CoqProject -o Makefile > /dev/null
-timeout 3000 make -j16 2>&1 | tail -5
+timeout 3000 make -j16 -k 2>&1 | tail -15
 echo "setup: coq build ok"
